@@ -133,54 +133,65 @@ Theorem C08_self_diff_zero : forall c,
 Proof. exact (fun c => diff_self_zero (report c) (report_names_sorted c)). Qed.
 Print Assumptions C08_self_diff_zero.
 
-(* The printed time is the value truncated to its unit for every value below 24 minutes (exact below 1 ms). *)
-Theorem C08_printed_time : forall ns, ns < 1440000000000 -> ok_cell ns (fmt_time ns) = true.
+(* The printed time is the value truncated to its unit (us, ms, s, m = 60 s, h = 60 m) for every value below
+   1000 hours (exact below 1 ms). *)
+Theorem C08_printed_time : forall ns, ns < 3600000000000000 -> ok_cell ns (fmt_time ns) = true.
 Proof. exact fmt_time_ok. Qed.
 Print Assumptions C08_printed_time.
 
 (* What `uftrace report` prints, for every --avg-total/--avg-self mode, every -s key list and every -f field
    selection (report_keys / report_fields): rows in key order, every printed cell denotes the node's figure -
-   the stdout checker applied to the implementation on every run accepts the model's stdout (figures < 24 min). *)
+   the stdout checker applied to the implementation on every run accepts the model's stdout (figures < 1000 h). *)
 Theorem C08_stdout_checker_accepts_model : forall m s f c, small_figures (report c) ->
   ok_stdout (report_keys m s f) (report_fields m f) (report c)
             (stdout_model (report_keys m s f) (report_fields m f) (report c)) = true.
 Proof. exact (fun m s f c H => stdout_checker_accepts_model _ _ (report c) (report_names_sorted c) H). Qed.
 Print Assumptions C08_stdout_checker_accepts_model.
 
-(* From 24 minutes on it is not: __print_time_unit divides minutes by 24 (35 min is printed "1.011 h"). *)
-Theorem C08_printed_time_hours_refuted :
-  let ns := 35 * 60 * 1000000000 in fmt_time ns = Some (1, 11, 4) /\ ok_cell ns (fmt_time ns) = false.
-Proof. exact fmt_time_hours_refuted. Qed.
-Print Assumptions C08_printed_time_hours_refuted.
+(* ------------------------------------------------------------------------------------------------
+   The code before the four fixes (legacy variants of the model), each next to the behaviour now.  *)
 
-(* Outside the guard "data starts at depth 0, no LOST" the statements fail for the code as it is: *)
+(* hours were minutes / 24: 35 min was printed "1.011 h"; now "35.000 m" *)
+Theorem C08_printed_time_hours_legacy_refuted :
+  let ns := 35 * 60 * 1000000000 in
+  fmt_time_legacy ns = Some (1, 11, 4) /\ ok_cell ns (fmt_time_legacy ns) = false
+  /\ fmt_time ns = Some (35, 0, 3).
+Proof. exact fmt_time_hours_legacy_refuted. Qed.
+Print Assumptions C08_printed_time_hours_legacy_refuted.
 
-(* inherited frames (fork child): an outermost invocation is classified recursive; Total 0 < Self 1000 *)
-Theorem C08_inherited_frames_refuted :
-  exists n, find_node (report child_case) 2 = Some n
-            /\ n_call n = 1 /\ sum (n_total n) = 0 /\ recs (n_total n) = 1000 /\ sum (n_self n) = 1000.
-Proof. exact inherited_frames_refuted. Qed.
-Print Assumptions C08_inherited_frames_refuted.
+(* inherited frames (fork child): an outermost invocation was classified recursive (Total 0 < Self 1000);
+   now its Total is 1000 *)
+Theorem C08_inherited_frames_legacy_refuted :
+  (exists n, find_node (report_gen true child_case) 2 = Some n
+             /\ n_call n = 1 /\ sum (n_total n) = 0 /\ recs (n_total n) = 1000 /\ sum (n_self n) = 1000)
+  /\ (exists n, find_node (report child_case) 2 = Some n
+              /\ n_call n = 1 /\ sum (n_total n) = 1000 /\ recs (n_total n) = 0 /\ sum (n_self n) = 1000).
+Proof. exact inherited_frames_legacy_refuted. Qed.
+Print Assumptions C08_inherited_frames_legacy_refuted.
 
-(* a LOST marker after such a start yields a duration of 2^64 - 1499 ns *)
+(* report --task: calls open at the end lasted until the last EXIT only (200 ns instead of 8000 ns) and a
+   task without any EXIT had no line; now the line is the sum of the Self times *)
+Theorem C08_task_mode_open_legacy_refuted :
+  let killed := [mkrec ENTRY 0 10 1000; mkrec ENTRY 1 30 1100; mkrec EXIT 1 30 1200; mkrec ENTRY 1 20 1300;
+                 mkrec ENTRY 2 30 9000] in
+  let noexit := [mkrec ENTRY 0 10 1000; mkrec ENTRY 1 20 5000] in
+  task_line_legacy 1024 killed = (200, 2) /\ task_line_legacy 1024 noexit = (0, 0)
+  /\ sumN (map w_self (task_rows 1024 killed)) = 8000
+  /\ task_line 1024 killed = (8000, 4) /\ task_line 1024 noexit = (4000, 2).
+Proof. exact task_mode_open_legacy_refuted. Qed.
+Print Assumptions C08_task_mode_open_legacy_refuted.
+
+(* report --diff (no colours): the sign of a time difference was inverted; now "-" means a decrease *)
+Theorem C08_diff_sign_legacy_refuted :
+  show_dtime_legacy 100 300 = Some (true, 0, 200, 0) /\ show_dtime_legacy 300 100 = Some (false, 0, 200, 0)
+  /\ show_dtime 100 300 = Some (false, 0, 200, 0) /\ show_dtime 300 100 = Some (true, 0, 200, 0).
+Proof. exact diff_sign_legacy_refuted. Qed.
+Print Assumptions C08_diff_sign_legacy_refuted.
+
+(* ------------------------------------------------------------------------------------------------
+   Still present in the code (known finding lost-after-inherited-wrap): outside the guard "no LOST after
+   data that starts at depth > 0" a duration wraps: 2^64 - 1499 ns *)
 Theorem C08_lost_after_inherited_refuted :
   exists n, find_node (report lost_case) 2 = Some n /\ smax (n_total n) = M64 - 1499.
 Proof. exact lost_after_inherited_refuted. Qed.
 Print Assumptions C08_lost_after_inherited_refuted.
-
-(* report --task: calls open at the end last until the last EXIT only (200 ns instead of 8000 ns) and a
-   task without any EXIT has no line *)
-Theorem C08_task_mode_open_refuted :
-  let killed := [mkrec ENTRY 0 10 1000; mkrec ENTRY 1 30 1100; mkrec EXIT 1 30 1200; mkrec ENTRY 1 20 1300;
-                 mkrec ENTRY 2 30 9000] in
-  task_line 1024 killed = (200, 2)
-  /\ sumN (map w_self (task_rows 1024 killed)) = 8000
-  /\ task_line 1024 [mkrec ENTRY 0 10 1000; mkrec ENTRY 1 20 5000] = (0, 0).
-Proof. exact task_mode_open_refuted. Qed.
-Print Assumptions C08_task_mode_open_refuted.
-
-(* report --diff (no colours): the sign of a time difference is inverted (an increase is printed with "-") *)
-Theorem C08_diff_sign_refuted :
-  show_dtime 100 300 = Some (true, 0, 200, 0) /\ show_dtime 300 100 = Some (false, 0, 200, 0).
-Proof. exact diff_sign_refuted. Qed.
-Print Assumptions C08_diff_sign_refuted.
